@@ -42,7 +42,7 @@ RUN_TIMEOUT_S = 180.0
 MIN_BUDGET = 150
 
 TIERS = {
-    'quick': {'runs': 3500, 'classes': 8, 'budget_s': 80},
+    'quick': {'runs': 3500, 'classes': 8, 'budget_s': 60},
     'thorough': {'runs': 75000, 'classes': 32, 'budget_s': 1100},
 }
 
